@@ -308,6 +308,7 @@ def run(prop):
     bad_traces, good_traces = [], []
     nontrivial = evals = undefined = 0
     per = {}
+    nkind = {}
     for o in outs:
         c = cases[o["i"]]
         st = o["stats"]
@@ -333,6 +334,10 @@ def run(prop):
             if fid and ck.known_finding(fid, f["what"]):
                 continue
             unexcused = True
+            nkind[f["kind"]] = nkind.get(f["kind"], 0) + 1
+            if nkind[f["kind"]] > 40:           # every violation counts for the verdict; replay files are written for the first 40 of a kind
+                ck.cov["violations_without_replay_file"] = ck.cov.get("violations_without_replay_file", 0) + 1
+                continue
             ck.violation("%s [%s%s] %s" % (prop, f["kind"], (" = class of finding " + fid + " (not listed open)") if fid else "", f["what"]),
                          {"case": c, "finding": f, "stats": st})
         (bad_traces if unexcused else good_traces).append(o)
